@@ -128,7 +128,12 @@ pub fn check_mul(a: &BigUint, b: &BigUint, p: &BigUint, n: usize) -> CaseResult 
 pub fn check_halve(a: &BigUint, b: &BigUint, p: &BigUint, n: usize, vartime_params: bool) -> CaseResult {
     let odd = Odd::new(bx(p, n)).unwrap();
     let params = if vartime_params {
-        total("BoxedMontyParams::new_vartime", || BoxedMontyParams::new_vartime(odd))?
+        // alternate between the inherent and the trait constructor (both "vartime in the modulus")
+        if p.bit(1) {
+            total("BoxedMontyParams::new_vartime", || BoxedMontyParams::new_vartime(odd))?
+        } else {
+            total("Monty::new_params_vartime", || <BoxedMontyForm as Monty>::new_params_vartime(odd))?
+        }
     } else {
         total("BoxedMontyParams::new", || BoxedMontyParams::new(odd))?
     };
